@@ -599,7 +599,7 @@ def run_batch(prop, tier, nruns=None, budget_s=None, workers=None, profile=None,
 
     probes_all = msum("probes")
     discarded = sum(v for k, v in probes_all.items() if k.startswith("discarded-"))
-    if execs and discarded > 0.05 * execs:
+    if execs and discarded > max(10, 0.08 * execs):
         print(f"HARNESS-ERROR {discarded} of {execs} executions were discarded as unbuildable")
         return 2, None
     truncated = any(a["truncated"] for a in aggs)
